@@ -882,4 +882,58 @@ with a failing rcode (anything but NOERROR / NXDOMAIN) and possibly an EDE of it
 def hitChaseFailReply (hopEDE : Option Nat) (hasOPT : Bool) : Reply :=
   { rcode := 2, ede := if hasOPT then some (hopEDE.getD 0) else none, ad := false, answers := 0 }
 
+/-! ### histories of a zone's key set in the cache (`cache.ServeDNS` admission keyed on the client's CD bit,
+RFC 9520 failure entries, `Store.GetWithContext`) -/
+
+/-- what a cached DNSKEY question holds: the genuine key set, one padded with a foreign key, or a failure. -/
+inductive KV where
+  | genuine | padded | failed
+deriving DecidableEq, Repr
+
+def KV.str : KV → String
+  | .genuine => "genuine" | .padded => "padded" | .failed => "failed"
+
+structure KeyCache where
+  e0 : Option KV
+  e1 : Option KV
+deriving DecidableEq, Repr
+
+inductive KeyEv where
+  /-- a client asks with this CD bit while the upstream copy is authentic / padded -/
+  | ask (cd authentic : Bool)
+  /-- every entry runs out -/
+  | expire
+deriving DecidableEq, Repr
+
+/-- the resolver below the cache: a checking-disabled question relays whatever is upstream, a validating
+one ends in the genuine set or in SERVFAIL. -/
+def upstreamKeys (cd authentic : Bool) : KV :=
+  if authentic then .genuine else if cd then .padded else .failed
+
+/-- one client question: a hit in the partition of ITS CD bit, else the resolver's reply, filed there. -/
+def KeyCache.step (c : KeyCache) : KeyEv → KeyCache × Option KV
+  | .expire => ({ e0 := none, e1 := none }, none)
+  | .ask false a =>
+    match c.e0 with
+    | some v => (c, some v)
+    | none => ({ c with e0 := some (upstreamKeys false a) }, some (upstreamKeys false a))
+  | .ask true a =>
+    match c.e1 with
+    | some v => (c, some v)
+    | none => ({ c with e1 := some (upstreamKeys true a) }, some (upstreamKeys true a))
+
+def KeyCache.run (c : KeyCache) (evs : List KeyEv) : KeyCache := evs.foldl (fun c e => (c.step e).1) c
+
+/-- replies along a history. -/
+def KeyCache.replies : KeyCache → List KeyEv → List (Option KV)
+  | _, [] => []
+  | c, e :: es => (c.step e).2 :: KeyCache.replies (c.step e).1 es
+
+/-- what the resolver's own fetch with the given CD bit is served. -/
+def KeyCache.fetch (c : KeyCache) (cd : Bool) : Option KV :=
+  match privateLookup c.e0.isSome c.e1.isSome cd with
+  | some false => c.e0
+  | some true => c.e1
+  | none => none
+
 end SdnsVerif.Model.Dnssec
